@@ -323,7 +323,9 @@ func c13WithCheck(c *ctx) {
 	c.r.Floor(rule, 1)
 }
 
-func pathsAvoidingEdge(fn *ssa.Function, from *ssa.BasicBlock, si int, to *ssa.BasicBlock) []bool { return nil }
+func pathsAvoidingEdge(fn *ssa.Function, from *ssa.BasicBlock, si int, to *ssa.BasicBlock) []bool {
+	return nil
+}
 
 // reachableOnlyIfNil: remove the safe edge (gb→Succs[side]) of the guard; then every path from the
 // entry to an accepting block must traverse an edge on which `x == nil` is established.
